@@ -1353,7 +1353,8 @@ fn build_cases(ty: &Ty, param: bool, update: bool, thorough: bool) -> Vec<(Optio
                 }
             }
             if let Some(n) = null {
-                if t != n && (thorough || ty.vals[t].szc.is_none()) {
+                // quick tier: NULL -> value only for the ordinary value of each type
+                if t != n && (thorough || ty.vals[t].class == "typical") {
                     cases.push((Some(n), t));
                 }
             }
@@ -1726,7 +1727,12 @@ fn units<'a>(tys: &'a [Ty], thorough: bool) -> Vec<(String, Unit<'a>)> {
                 // heavy batches are split so that workers stay balanced
                 let weight: usize = cases.iter().map(|c| 2000 + ty.vals[c.1].bytes + c.0.map(|f| ty.vals[f].bytes).unwrap_or(0)).sum();
                 let parts = (weight / 1_500_000).clamp(1, 8);
+                // quick tier: README aliases, JSON (same implementation as JSONB) and CHAR(5000) on the keyed table only
+                let pk_only = !thorough && (["integer", "int2", "int4", "int8", "float", "float4", "float8", "double-precision", "bool", "json", "char(5000)"].contains(&ty.sig.as_str()));
                 for pk in [true, false] {
+                    if pk_only && !pk {
+                        continue;
+                    }
                     for part in 0..parts {
                         let sub: Vec<(Option<usize>, usize)> = cases.iter().enumerate().filter(|(i, _)| i % parts == part).map(|(_, c)| *c).collect();
                         if sub.is_empty() {
